@@ -2,6 +2,7 @@ package main
 
 import (
 	"go/ast"
+	"strconv"
 	"strings"
 )
 
@@ -76,5 +77,41 @@ func extractC03(c *Ctx) {
 	c.Add("c03RouteOuterCalls", "List String", LeanStrList(outer), src, "every call of RouteHTTP outside the per-route callback, in source order")
 	c.Add("c03RouteMatchArgs", "List String", LeanStrList(matchArgs), src, "arguments of the MatchAndEscape call(s) in RouteHTTP")
 	c.Add("c03RouteSuffixArgs", "List String", LeanStrList(suffixArgs), src, "arguments of strings.HasSuffix inside the callback")
+	// mutablePatternRoutingTable.commit: every method's list is copied under its OWN key, nothing else is written
+	cm := c.FuncDecl(rt, "mutablePatternRoutingTable", "commit")
+	csrc := rt
+	var idxAssigns, ranges []string
+	cstmts := 0
+	if cm != nil {
+		csrc = c.Pos(cm)
+		cstmts = len(cm.Body.List)
+		ast.Inspect(cm.Body, func(n ast.Node) bool {
+			switch x := n.(type) {
+			case *ast.AssignStmt:
+				for _, l := range x.Lhs {
+					if _, ok := l.(*ast.IndexExpr); ok {
+						rhs := make([]string, len(x.Rhs))
+						for i, r := range x.Rhs {
+							rhs[i] = c.Src(r)
+						}
+						idxAssigns = append(idxAssigns, c.Src(l)+x.Tok.String()+strings.Join(rhs, ","))
+					}
+				}
+			case *ast.RangeStmt:
+				k, v := "_", "_"
+				if x.Key != nil {
+					k = c.Src(x.Key)
+				}
+				if x.Value != nil {
+					v = c.Src(x.Value)
+				}
+				ranges = append(ranges, k+","+v+":=range "+c.Src(x.X))
+			}
+			return true
+		})
+	}
+	c.Add("c03CommitIndexAssigns", "List String", LeanStrList(idxAssigns), csrc, "every map/index assignment in mutablePatternRoutingTable.commit")
+	c.Add("c03CommitRanges", "List String", LeanStrList(ranges), csrc, "every range loop of commit")
+	c.Add("c03CommitStmts", "Nat", strconv.Itoa(cstmts), csrc, "number of top-level statements of commit")
 	c.Add("c03RouteCallbackDecls", "List String", LeanStrList(innerDecls), src, "variables declared inside the per-route callback")
 }
